@@ -95,6 +95,17 @@ CLAIMS = {
         note=A1 + 'PARTIAL: the value identity sum_S c_S prod x_i = objective(x) on {0,1}^n is NOT decided (needs a summation spec over the BTreeMap and the exact epsilon-drop accounting). ASSUMED: term iterator of &Function, binary_ids, used ids, BinaryIdPair::try_from (slice patterns outside Verus), and the accumulate idiom entry().and_modify().or_insert() as a helper.',
         technique='contract-based deductive verification (Verus) of mechanically extracted Rust functions',
         ref='DESIGN 6 C11'),
+    'C17': dict(
+        text='Deductive proof (Verus) of the real text of the table->instance conversion kernels of mps/convert.rs: get_dvar_bound (default [0,+inf); LO -> [l,+inf); UP -> [0,u], only a NEGATIVE UP opens the lower bound; both -> [l,u]), get_dvar_kind, convert_sense, '
+             'convert_inequality (E/L rows a.x-b, G rows -a.x+b, equality kinds, every coefficient) and convert_objective (terms of the objective row, constant = -RHS of the FILE\'s objective row).',
+        note=A1 + 'ONLY the conversion kernels are claimed. NOT covered: the line-oriented text layer (sections, markers, bound keywords FR/MI/PL/BV/LI/UI, RANGES, numbers, OBJSENSE, gzip, error reporting) and convert_dvars/convert_constraints (hash iteration, id recovery). RowName/ColumnName are opaque names with an assumed key model. Defects D5a and D5c found and repaired in /repo; D5b/D5d lie in the uncovered part (DESIGN 7).',
+        technique='contract-based deductive verification (Verus) of mechanically extracted Rust functions',
+        ref='DESIGN 6 C17'),
+    'C19': dict(
+        text='Deductive proof (Verus) of the real text of the conversion kernels of qplib/convert.rs: to_quadratic (one COO entry per listed lower-triangle entry, each exactly once in any HashMap order, off-diagonal v, DIAGONAL v/2, so that the entries sum to 1/2 x\'Qx), wrap_function (value = quadratic entries + linear terms + constant for every assignment) and convert_sense.',
+        note=A1 + 'ONLY these kernels are claimed. NOT covered: the section-by-section text reader, convert_objective default-b0 expansion, convert_constraints (two-sided split), to_linear, apply_infinity_threshold, convert_dvars. ASSUMED: Quadratic::is_zero. Defect D6 (diagonal not halved) found by this check and repaired in /repo.',
+        technique='contract-based deductive verification (Verus) of mechanically extracted Rust functions',
+        ref='DESIGN 6 C19'),
 }
 NA = {
     'C06': 'evaluate_samples is built from FnMut closures capturing &mut state and iterator adapters over HashMap<OrderedFloat,..>: rejected by Verus, far beyond measured Kani limits; leaf lookups alone do not decide the property (DESIGN 6 C06)',
